@@ -823,6 +823,37 @@ macro_rules! define_builder {
                                     Ok(Val::Span(inp.span_since(&before).norm(), Box::new(Val::Num(1))))
                                 }
                             }
+                            3 => {
+                                // checkpoint shuffle: take a checkpoint before every one of the next few
+                                // tokens (and one at the end of input if it is that close), then visit the
+                                // checkpoints in a scrambled order — forwards, backwards, to the very end,
+                                // one step back from the end — reading one token after every rewind
+                                let mut cps = vec![inp.save()];
+                                for _ in 0..5 {
+                                    if inp.next_maybe().is_none() {
+                                        break;
+                                    }
+                                    cps.push(inp.save());
+                                }
+                                if cps.len() < 2 {
+                                    return Err(Rich::custom(inp.span_since(&before), "api3-eof"));
+                                }
+                                let n = cps.len();
+                                let mut x = a as usize * 7 + 3;
+                                let mut seen = Vec::new();
+                                for _ in 0..9 {
+                                    let j = x % n;
+                                    x = x.wrapping_mul(5).wrapping_add(1) % 1009;
+                                    inp.rewind(cps[j].clone());
+                                    let first = inp.next_maybe().map(|t| t.to_sym()).unwrap_or(254);
+                                    // sometimes a second read right behind it (at the end: a second probe)
+                                    let second = if x % 3 == 0 { inp.peek_maybe().map(|t| t.to_sym()).unwrap_or(254) } else { 253 };
+                                    seen.push(Val::Seq(vec![Val::Num(j as u64), Val::Tok(first), Val::Tok(second)]));
+                                }
+                                // leave the input after the last token that was stepped over
+                                inp.rewind(cps[n - 1].clone());
+                                Ok(Val::Span(inp.span_since(&before).norm(), Box::new(Val::Seq(seen))))
+                            }
                             _ => {
                                 // run sub-parsers from inside a custom parser
                                 let n = inp.parse(&sub_many)?;
